@@ -2724,7 +2724,8 @@ func RuleMU1(c *Ctx) {
 				for _, l := range x.Lhs {
 					if ix, ok := ast.Unparen(l).(*ast.IndexExpr); ok {
 						if sel, ok := ast.Unparen(ix.X).(*ast.SelectorExpr); ok {
-							if f, ok := info.ObjectOf(sel.Sel).(*types.Var); ok && f.IsField() && fieldOwner(coreT, f) {
+							// the insert into the macro table itself (also by a helper) is what collecting macros is
+							if f, ok := info.ObjectOf(sel.Sel).(*types.Var); ok && f.IsField() && fieldOwner(coreT, f) && f != macro {
 								why = "stores into core." + f.Name()
 							}
 						}
